@@ -194,6 +194,7 @@ func (h *H) restart(tk []string) {
 	if kv(h.confToks, "store") == "dir" && !*h.conf.Storage.ReadOnly {
 		for repo := range h.mon.repos {
 			if h.mon.routable(h, repo) {
+				h.touchIndex(repo)
 				_ = h.srv.VerifGC(repo)
 				h.mon.gc(h, repo)
 			}
@@ -385,6 +386,19 @@ func (h *H) makeOutside(dir string) {
 	_ = os.WriteFile(filepath.Join(dir, "blobs", "sha256", d.Encoded()), secret, 0o644)
 	h.tk.reg("outsidesecret", secret)
 	h.outside = fsSnapshot(dir)
+}
+
+// touchIndex makes index.json of a repository of the directory store look modified, so that the forced load at the
+// start of a collection always replaces the cached index (the store revalidates by mtime; the model does not carry the clock)
+func (h *H) touchIndex(repo string) {
+	if kv(h.confToks, "store") != "dir" || h.root == "" || !h.mon.routable(h, repo) {
+		return
+	}
+	p := filepath.Join(h.root, repo, "index.json")
+	if fi, err := os.Stat(p); err == nil {
+		t := fi.ModTime().Add(time.Millisecond)
+		_ = os.Chtimes(p, t, t)
+	}
 }
 
 func (h *H) refArg(ref string) string {
@@ -637,6 +651,7 @@ func (h *H) apply1(line string) (string, bool) {
 		return fmt.Sprintf("%d code=%s", r.Status, r.Code), true
 	case "GC":
 		h.mon.beforeGC(h, a[0])
+		h.touchIndex(a[0])
 		err := h.srv.VerifGC(a[0])
 		h.mon.gc(h, a[0])
 		h.mon.afterGC(h, a[0])
